@@ -5,6 +5,8 @@ package main
 // model (Model.WsRead) vs the conformant receiver of Spec.Ws.
 
 import (
+	"bytes"
+	"io"
 	"fmt"
 	"strconv"
 	"strings"
@@ -494,12 +496,17 @@ func c14(c *h.Ctx) {
 			if isServer {
 				b = h.UnHex("018301020304606063")
 			}
+			if r.Bool() {
+				b = nil // no message in progress: the huge frame may be a complete message of its own
+			}
 			m := byte(0)
 			if isServer {
 				m = 0x80
 			}
-			b = append(b, []byte{byte(r.Pick(0x00, 0x80)), 127 | m}...)
-			top := []uint64{1<<63 - 1, 1<<63 - 2, 1<<63 - 3, 1 << 62, 1 << 63, 1<<63 + 1, 1<<64 - 1, 1 << 32}[r.Intn(8)]
+			// (a continuation out of place, or a complete / first data frame: a LEGAL frame may announce up to 2^63-1
+			// bytes — the reader must neither trust nor pre-allocate that — and the stream then ends)
+			b = append(b, []byte{byte(r.Pick(0x00, 0x80, 0x81, 0x82, 0x01, 0x02)), 127 | m}...)
+			top := []uint64{1<<63 - 1, 1<<63 - 2, 1<<63 - 3, 1 << 62, 1 << 63, 1<<63 + 1, 1<<64 - 1, 1 << 32, 1 << 40, 1 << 48}[r.Intn(10)]
 			for k := 7; k >= 0; k-- {
 				b = append(b, byte(top>>(8*uint(k))))
 			}
@@ -522,6 +529,52 @@ func c14(c *h.Ctx) {
 		}
 		c14RunStream(c, "malformed", isServer, r.Chance(30), []int64{0, 0, 1, 5, 20}[r.Intn(5)], b, nil)
 	}
+	// 5b. a reader the application abandoned: NextReader for message 1, (part of it read or nothing), NextReader again
+	// — the rest of message 1 is skipped — and then one more Read on the FIRST reader: it is finished (0, EOF) and
+	// must not take a byte of message 2, which the second reader delivers whole.
+	for _, isServer := range []bool{false, true} {
+		for _, part := range []int{0, 3} {
+			mk := func(fin bool, op int, payload []byte) []byte {
+				b0 := byte(op)
+				if fin {
+					b0 |= 0x80
+				}
+				if isServer {
+					return append(append([]byte{b0, 0x80 | byte(len(payload))}, 0, 0, 0, 0), payload...)
+				}
+				return append([]byte{b0, byte(len(payload))}, payload...)
+			}
+			m1a, m1b, m2 := []byte("first-message-part-one"), []byte("-and-part-two"), []byte("second message, complete")
+			stream := append(append(mk(false, 1, m1a), mk(true, 0, m1b)...), mk(true, 2, m2)...)
+			in := fmt.Sprintf("ws abandoned reader role=%s: NextReader; read %d bytes; NextReader; Read on the first reader; read the second to the end", roleStr(isServer), part)
+			conn := ws.VerifNewConn(newWsFake(stream), isServer, 0, 256, false)
+			res := h.Safe(func() string {
+				_, r1, err := conn.NextReader()
+				if err != nil {
+					return "NextReader 1: " + err.Error()
+				}
+				if part > 0 {
+					io.ReadFull(r1, make([]byte, part))
+				}
+				t2, r2, err := conn.NextReader()
+				if err != nil {
+					return "NextReader 2: " + err.Error()
+				}
+				n, e := r1.Read(make([]byte, 64))
+				got, err := io.ReadAll(r2)
+				if n != 0 || e != io.EOF {
+					return fmt.Sprintf("superseded reader returned (%d, %v)", n, e)
+				}
+				if err != nil || t2 != ws.BinaryMessage || !bytes.Equal(got, m2) {
+					return fmt.Sprintf("second message: type %d %q err=%v", t2, got, err)
+				}
+				return "ok"
+			})
+			c.Hold(res == "ok", "delivers_whole_messages.abandoned_reader", in, res, "ok")
+			c.Case("abandoned-reader/"+roleStr(isServer), in, true)
+		}
+	}
+
 	// 6. exhaustive first header byte × {7-bit len 0, 1} (all FIN/RSV/opcode combinations), both roles.
 	for b0 := 0; b0 < 256; b0++ {
 		for _, isServer := range []bool{false, true} {
